@@ -32,7 +32,7 @@ type C18Plan struct {
 
 const rootName = "data"
 
-var segPool = []string{"a", "b", "..", "..", ".", "", rootName, rootName + "-other", rootName + "2", "x", "pkg_v1-0-0-beta", "tmp", "DATA", "A"}
+var segPool = []string{"a", "b", "..", "..", ".", "", rootName, rootName + "-other", rootName + "2", "x", "pkg_v1-0-0-beta", "tmp", "DATA", "A", `..\..\..\x`, `..\` + rootName + `-other\y`, `a\b`}
 
 func genC18(rng *rand.Rand, tier string) *C18Plan {
 	p := &C18Plan{Comp: []string{"fstree", "fstree", "dirstruct", "scan", "unpack"}[rng.IntN(5)], Depth: 1 + rng.IntN(4)}
